@@ -1,8 +1,9 @@
 """C12 - scheduler is fair and isolating; sleep, scriptDone, terminate work as documented."""
-import json
+import hashlib, json, os
 from hypothesis import strategies as st
 from engine.driver import Result, viol
 from engine.sqfprog import vm_value
+from engine.runner import RunnerCrash, sanitizer_signature
 
 ID = "C12"
 LEVEL = "exploration"
@@ -295,3 +296,74 @@ def _invariants(case, G, recs, slices, expected, term_targets, ctx):
                 if len(later) > case["slice"]:
                     return viol("F5-terminate-ignored", ctx + "script %d executed %d more instructions after terminating itself (slice %d)" % (target, len(later), case["slice"]))
     return None
+
+
+# ---------------------------------------------------------------- exhaustive part (thorough tier)
+def _enum_cases():
+    """every configuration of <=3 scripts x <=2 steps x slice <=3 over the reduced step alphabet"""
+    import itertools
+    first = [["mark"], ["sleep", 0], ["sleep", 0.001], ["selfterm"]]
+
+    def later(k):
+        return first + [["terminate", k - 1], ["poll", k - 1]]
+
+    def seqs(alpha):
+        return [[a] for a in alpha] + [[a, b] for a in alpha for b in alpha]
+    out = []
+    for n in (1, 2, 3):
+        per = [seqs(first)] + [seqs(later(k)) for k in range(1, n)]
+        for combo in itertools.product(*per):
+            for sl in (1, 2, 3):
+                out.append(dict(scripts=[list(map(list, c)) for c in combo], slice=sl))
+    return out
+
+
+def _enum_shard(shard):
+    from engine.driver import Env
+    env = Env(ID, "thorough", 0, 200 + (os.getpid() % 1000))
+    out = dict(evaluations=0, nontrivial=[], violations=[], inconclusive=0)
+    try:
+        for case in shard:
+            try:
+                res = check(case, env)
+            except RunnerCrash as rc:
+                try:
+                    res = check(case, env)
+                except RunnerCrash as rc2:
+                    res = Result(nontrivial=True, labels=["crash"], violation=viol(("hang|enum" if rc2.kind == "timeout" else "crash|enum|" + sanitizer_signature(rc2.detail)), rc2.detail[-800:]))
+            out["evaluations"] += 1
+            if res.inconclusive:
+                out["inconclusive"] += 1
+            if res.nontrivial:
+                out["nontrivial"].append(hashlib.sha1(json.dumps(case, sort_keys=True).encode()).hexdigest())
+            if res.violation is not None:
+                out["violations"].append(dict(case=case, sig=res.violation["sig"], msg=res.violation["msg"], labels=res.labels))
+                if len(out["violations"]) > 20:
+                    break
+    finally:
+        env.close()
+    return out
+
+
+def extra(env, tier, seed, sizes):
+    if tier != "thorough":
+        return None
+    import multiprocessing
+    todo = _enum_cases()
+    nproc = sizes.get("workers", 16)
+    shards = [todo[i::nproc] for i in range(nproc)]
+    with multiprocessing.get_context("fork").Pool(nproc) as pool:
+        results = pool.map(_enum_shard, shards)
+    out = dict(evaluations=0, nontrivial=[], labels={}, violations=[], samples=[todo[0], todo[len(todo) // 2], todo[-1]], info={})
+    seen = set()
+    for res in results:
+        out["evaluations"] += res["evaluations"]
+        out["nontrivial"].extend(res["nontrivial"])
+        for v in res["violations"]:
+            if v["sig"] not in seen:
+                seen.add(v["sig"])
+                out["violations"].append(v)
+    out["labels"]["enumerated_configurations"] = out["evaluations"]
+    out["info"] = dict(exhaustive=dict(scripts="1..3", steps_per_script="1..2", slice="1..3",
+                                       alphabet="mark, sleep 0, sleep 0.001, selfterm (+ terminate/poll of the previous script)", configurations=len(todo), executed=out["evaluations"]))
+    return out
